@@ -38,7 +38,9 @@ fdx / E4 providers (``provider_fdx``): simulate_counts labelling on every basis 
 normalisation of pauli_decomp (+ the arithmetic obligation nmlz(n) * 2**n == 1 for all n), the argument plumbing of
 pauli_correlations (callee stubbed), correlation on a complete small grid with the REAL ikron.
 
-Known failures on the unchanged tree (real defects, each reproduced natively -- ``replay`` of the contract / the fdx input):
+Known failures on the UNCHANGED tree (real defects, each reproduced natively -- ``replay`` of the contract / the fdx input).
+The tree has since been repaired (schmidt_gap, simulate_counts, dephase, quantum_discord; ikron for the last one): on the
+repaired tree all of them discharge, and selftest/mutants_c20.py puts each old defect back as a mutant that must fail:
   * schmidt_gap      index obligation `eigenvalue-1-exists`: A of total dimension 1, B not -> IndexError      (C20-c)
   * simulate_counts  `labels-use-base-phys_dim` (E1) / `certain-outcome-labelled-by-its-base-phys_dim-digits` and
                      `valid-labels-and-counts-sum-to-C` (fdx, phys_dim 3, 4, 5): labels are binary            (C20-e)
@@ -55,7 +57,7 @@ import time
 import z3
 
 from vf.pyvc import (And, Arr, Contract, If, Implies, Loop, Max, Min, NS, Not, Opaque, Or, PyRaise, R, Unsupported, V, Z,
-                     is_int, is_num, is_z3, register)
+                     is_int, is_num, is_z3, register, REGISTRY)
 from vf import lemmas
 import vf.pyvc as P
 
@@ -780,18 +782,203 @@ class PyIter:
         self.items = list(items)
 
 
+class SList:
+    """python list of SYMBOLIC length (z3 array Int -> Int + length), mutated in place by .append; ghost fields (maintained
+    by the .append hook, definitional): src[r] = the subsystem whose append created position r, posof[j] = the position
+    subsystem j was appended at"""
+
+    def __init__(self, arr, n, src=None, posof=None):
+        self.arr, self.n, self.src, self.posof = arr, n, src, posof
+
+    def get(self, j):
+        return z3.Select(self.arr, j)
+
+
+class SSet:
+    """subsystem set over a symbolic number of subsystems: membership array Int -> Bool"""
+
+    def __init__(self, arr):
+        self.arr = arr
+
+
+class SUnion:
+    def __init__(self, a, b):
+        self.a, self.b = a, b
+
+
+class Counter:
+    """iter(range(stop)) with symbolic stop: next() returns pos and advances"""
+
+    def __init__(self, pos, stop):
+        self.pos, self.stop = pos, stop
+
+
+SK_R, SK_R2, SK_S, SK_J = z3.Int("r!pos"), z3.Int("r2!pos"), z3.Int("s!entry"), z3.Int("j!sub")
+
+
+def fresh_slist(name):
+    return lambda cx: SList(cx.Array(name, INT, INT), cx.Int(name + "_len"), cx.Array(name + "_src", INT, INT),
+                            cx.Array(name + "_posof", INT, INT))
+
+
 @register
 class LognegSubsys(PairBase):
     """three routes.  C trivial (all dimensions outside A u B are 1):  max(log2(tr_sqrt_subsys(psi, dims, A)^2), 0);
     threshold reached: logneg_subsys_approx(psi, dims, A, B, **opts); otherwise logneg(ptr(psi, dims, A u B), nd, na) where
     nd lists the dimensions of the kept subsystems in increasing index order and na the POSITIONS of A's members in that
-    list -- i.e. the callee is asked for the same physical bipartition A | B of the reduced state"""
+    list -- i.e. the callee is asked for the same physical bipartition A | B of the reduced state.
+
+    Case ``all-n`` (class LognegSubsysAllN, registered separately under ``...::logneg_subsys#all-n`` so that a construct it
+    cannot read never hides the K <= 4 cases; SYMBOLIC number of subsystems, membership arrays): the renumbering loop of the
+    exact route, by loop
+    invariant with skolem constants -- for an arbitrary position r: nd[r] == dims[src r] with src r a kept subsystem,
+    src strictly increasing (arbitrary pair), every kept subsystem has a position (arbitrary j); for an arbitrary entry s
+    of na: it is the position of a member of A, and every member of A has its position in na; the position counter never
+    runs out.  (In this case the sizes are uninterpreted, so the three route CONDITIONS are decided by the K <= 4 cases.)"""
 
     target = f"{CALC}::logneg_subsys"
     floor = 100
     KS = (2, 3, 4)
 
+    def inputs(self, cx, case):
+        if case.K is not None:
+            return super().inputs(cx, case)
+        n = cx.Int("n")
+        cx.ghost["n"] = n
+        return dict(psi_abc=cx.Opaque("psi_abc"), dims=SList(cx.Array("dims", INT, INT), n),
+                    sysa=SSet(cx.Array("in_sysa", INT, z3.BoolSort())), sysb=SSet(cx.Array("in_sysb", INT, z3.BoolSort())),
+                    approx_thresh=cx.Int("approx_thresh"), approx_opts=opts_case(cx))
+
+    def requires(self, a, case):
+        if case.K is not None:
+            return super().requires(a, case)
+        return {"n>=1": a.dims.n >= 1}
+
+    # ---- hooks of the all-n case
+    def call_alln(self, cx, name, args, kwargs, node):
+        g = cx.ghost
+        if name == "__contains__" and isinstance(args[0], SSet):
+            return z3.Select(args[0].arr, args[1])
+        if name == "__len__" and isinstance(args[0], SList):
+            return args[0].n
+        if name == "enumerate" and len(args) == 1 and isinstance(args[0], SList):
+            from vf.pyvc import SymIter
+            return SymIter(args[0].n, lambda t, L=args[0]: (t, L.get(t)))
+        if name == "__genexp__":
+            # prod(d for i, d in enumerate(dims) if i in <set>): the size of a subsystem set -- uninterpreted here
+            gen = args[0].generators[0]
+            if len(gen.ifs) == 1 and isinstance(gen.ifs[0], ast.Compare) and isinstance(gen.ifs[0].ops[0], ast.In):
+                sset = cx.ev(gen.ifs[0].comparators[0])
+                if isinstance(sset, SSet):
+                    return ("size-of", sset)
+            return NotImplemented
+        if name == "prod":
+            x = args[0]
+            if isinstance(x, tuple) and len(x) == 2 and x[0] == "size-of":
+                v = U("size_of_set", [cx.old.dims.arr, g["n"], x[1].arr], INT)
+            elif isinstance(x, SList):
+                v = U("size_of_all", [x.arr, x.n], INT)
+            else:
+                return NotImplemented
+            cx.assume(v >= 1)  # [leaf] a product of dimensions >= 1
+            return v
+        if name in ("__nlmul__", "__nldivmod__"):
+            return NotImplemented
+        if name == "__binop__" and args[0] == "Add" and isinstance(args[1], SSet) and isinstance(args[2], SSet):
+            return SUnion(args[1], args[2])
+        if name == "ptr" and isinstance(args[1], SList) and isinstance(args[2], SUnion):
+            return St(U("ptr_union_n", [args[0], args[1].arr, args[1].n, args[2].a.arr, args[2].b.arr]))
+        if name in ("tr_sqrt_subsys", "logneg_subsys_approx"):
+            cx.events.append((name,))
+            return cx.Real(name)
+        if name == "iter" and len(args) == 1 and isinstance(args[0], tuple) and args[0][0] == "range" and len(args[0]) == 2:
+            return Counter(z3.IntVal(0), args[0][1])
+        if name == "next" and len(args) == 1 and isinstance(args[0], Counter):
+            c = args[0]
+            cx.oblige(f"safety@{node.lineno}:position-counter-not-exhausted", "safety", c.pos < c.stop, node.lineno)
+            v = c.pos
+            c.pos = c.pos + 1
+            return v
+        if name == ".append" and isinstance(args[0], list) and not args[0]:
+            raise Unsupported("append to a concrete list in the all-n case")
+        if name == ".append" and isinstance(args[0], SList):
+            L, x = args[0], args[1]
+            i = cx.env["i"]  # the subsystem being processed (loop variable of the real loop)
+            L.arr = z3.Store(L.arr, L.n, x)
+            L.src = z3.Store(L.src, L.n, i)
+            L.posof = z3.Store(L.posof, i, L.n)
+            L.n = L.n + 1
+            return None
+        if name == "logneg" and len(args) == 3 and not kwargs and isinstance(args[1], SList) and isinstance(args[2], SList):
+            cx.events.append(("logneg-n", args[0], args[1], args[2]))
+            return cx.Real("logneg_value")
+        return None
+
+    def kept(self, cx, j):
+        a = cx.old
+        return Or(z3.Select(a.sysa.arr, j), z3.Select(a.sysb.arr, j))
+
+    def alln_claims(self, cx, nd, na, t):
+        """the claims about the two lists after the subsystems 0 .. t-1 have been processed"""
+        a = cx.old
+        r, r2, s, j = SK_R, SK_R2, SK_S, SK_J
+        inA = lambda q: z3.Select(a.sysa.arr, q)
+        src, pos = (lambda q: z3.Select(nd.src, q)), (lambda q: z3.Select(nd.posof, q))
+        return {
+            "lengths": And(0 <= nd.n, nd.n <= t, 0 <= na.n, na.n <= nd.n),
+            "position-r-holds-the-dimension-of-a-kept-subsystem": Implies(And(0 <= r, r < nd.n), And(
+                0 <= src(r), src(r) < t, self.kept(cx, src(r)), nd.get(r) == a.dims.get(src(r)), pos(src(r)) == r)),
+            "positions-in-increasing-subsystem-order": Implies(And(0 <= r, r < r2, r2 < nd.n), src(r) < src(r2)),
+            "every-kept-subsystem-has-a-position": Implies(And(0 <= j, j < t, self.kept(cx, j)), And(
+                0 <= pos(j), pos(j) < nd.n, src(pos(j)) == j)),
+            "entry-s-of-new_sysa-is-the-position-of-a-member-of-A": Implies(And(0 <= s, s < na.n), And(
+                0 <= na.get(s), na.get(s) < nd.n, inA(src(na.get(s))))),
+            "every-member-of-A-has-its-position-in-new_sysa": Implies(And(0 <= j, j < t, inA(j)), And(
+                0 <= z3.Select(na.posof, j), z3.Select(na.posof, j) < na.n, na.get(z3.Select(na.posof, j)) == pos(j))),
+        }
+
+    def inv_alln(self, v):
+        cx = v.cx
+        zero = z3.K(INT, z3.IntVal(0))
+        empty = lambda x: SList(zero, z3.IntVal(0), zero, zero) if isinstance(x, list) and not x else x
+        nd, na, c = empty(v.new_dims), empty(v.new_sysa), v.new_inds
+        if not (isinstance(nd, SList) and isinstance(na, SList) and isinstance(c, Counter)):
+            raise Unsupported("all-n case: lists / counter of another kind")
+        d = self.alln_claims(cx, nd, na, v._it0)
+        d["counter-in-step-with-new_dims"] = And(c.pos == nd.n, c.stop == cx.ghost["n"], v._it0 <= cx.ghost["n"])
+        return d
+
+    @property
+    def loops(self):
+        def spec(case):
+            if case.K is not None:
+                return None  # concrete number of subsystems: the loop is unrolled
+            return Loop("for (i, d) in enumerate(dims)", self.inv_alln, extra_modifies=("new_dims", "new_sysa", "new_inds"),
+                        retype={"new_dims": fresh_slist("new_dims"), "new_sysa": fresh_slist("new_sysa"),
+                                "new_inds": lambda cx: Counter(cx.Int("next_position"), cx.ghost["n"])})
+        return {0: spec}
+
+    def ensures_alln(self, a, r, cx):
+        ev = [e for e in cx.events if e[0] in ("tr_sqrt_subsys", "logneg_subsys_approx", "logneg-n")]
+        d = {"one-leaf-call": len(ev) == 1}
+        if len(ev) != 1 or ev[0][0] != "logneg-n":
+            return d  # the other two routes: decided by the K <= 4 cases
+        _, rho, nd, na = ev[0]
+        # (the union of the two sets: the order of the two operands is immaterial)
+        d["reduced-state-of-A-u-B"] = isinstance(rho, St) and any(
+            rho.z.eq(U("ptr_union_n", [a.psi_abc, a.dims.arr, a.dims.n, x.arr, y.arr])) for x, y in ((a.sysa, a.sysb), (a.sysb, a.sysa)))
+        d.update(self.alln_claims(cx, nd, na, a.dims.n))
+        return d
+
     def call(self, cx, name, args, kwargs, node):
+        if cx.case.K is None:
+            if name == "__binop__" and args[0] == "Add" and isinstance(args[1], list) and isinstance(args[2], list):
+                return NotImplemented
+            r = self.call_alln(cx, name, args, kwargs, node)
+            if r is NotImplemented:
+                return NotImplemented
+            if r is not None or name in (".append",):
+                return r
         if name == "tr_sqrt_subsys":
             psi, dims, sys_ = args
             cx.events.append(("tr_sqrt_subsys", psi, dims, kwargs))
@@ -818,6 +1005,8 @@ class LognegSubsys(PairBase):
         return super().call(cx, name, args, kwargs, node)
 
     def ensures(self, a, r, cx, case):
+        if case.K is None:
+            return self.ensures_alln(a, r, cx)
         K, A, B = case.K, list(case.A), list(case.B)
         AB = union(A, B)
         C_trivial = And(*[a.dims[q] == 1 for q in range(K) if not AB[q]])
@@ -851,6 +1040,18 @@ class LognegSubsys(PairBase):
                       "A-renumbered-to-its-positions-among-the-kept": mvec(e[3], len(nd)) == na if len(e[2]) == len(nd) else False,
                       "logneg-of-the-reduced-state-across-A|B": R(r) == U(f"logneg{len(nd)}", [rho, *nd, *na], REAL)})
         return d
+
+
+class LognegSubsysAllN(LognegSubsys):
+    """the ``all-n`` case of LognegSubsys (see there)"""
+
+    floor = 20
+
+    def cases(self):
+        return [NS(name="all-n", K=None, A=None, B=None, thresh="int")]
+
+
+REGISTRY[f"{CALC}::logneg_subsys#all-n"] = LognegSubsysAllN()
 
 
 # =====================================================================================================================
@@ -988,9 +1189,18 @@ class QuantumDiscord(ClosureBase):
             return st
         if name == "qu" and len(args) == 2 and args[1] == "dop":
             return St(U("dop", [args[0]]), order=[0, 1])
+        if name == "permute" and len(args) == 3 and isinstance(args[0], St) and args[0].order is None and \
+                isinstance(args[2], (tuple, list)) and not kwargs:
+            return St(U("permute", [args[0], *args[2]]), order=None, base=args[0].base)  # positions unknown: stay unknown
         if name == "permute" and len(args) == 3 and isinstance(args[0], St) and args[0].order is not None and \
                 isinstance(args[2], (tuple, list)) and sorted(args[2]) == list(range(len(args[0].order))) and not kwargs:
-            # [leaf permute] new position q holds what old position perm[q] held
+            # [leaf permute(p, dims, perm)] `dims` are the dimensions of the CURRENT positions of p; new position q holds
+            # what old position perm[q] held
+            pd, full = args[1], cx.old.dims
+            dim_of = lambda idx: full[idx] if isinstance(idx, int) else cx.getitem(list(full), idx, node)
+            cx.oblige(f"call-pre@{node.lineno}:permute:dims-of-the-current-positions", "call-pre",
+                      isinstance(pd, (tuple, list)) and len(pd) == len(args[0].order) and
+                      And(*[zeq(x, dim_of(o)) for x, o in zip(pd, args[0].order)]), node.lineno)
             return St(U("permute", [args[0], *args[2]]), order=[args[0].order[q] for q in args[2]], base=args[0].base)
         if name == "mutual_information" and len(args) == 1 and not kwargs and isinstance(args[0], St):
             cx.events.append(("mutinf", args[0]))
